@@ -40,6 +40,9 @@ type cacheEv struct {
 	// tags cannot be the hash: such an event has a made-up id (stores do not
 	// verify ids; the relay in front of them does).
 	SelfRef int `json:"self_ref,omitempty"`
+	// ShortID: the event carries a made-up id of another LENGTH (a prefix of its
+	// hash): stores order and index ids as opaque strings.
+	ShortID bool `json:"short_id,omitempty"`
 	Refs []cacheRef `json:"refs,omitempty"` // for kind 5 (and as ordinary e/a tags on other kinds)
 }
 
@@ -138,6 +141,11 @@ func (c *CacheCase) build() []*mocrelay.Event {
 		}
 		s.Tags = tags
 		evs[i] = s.Event()
+		if sp.ShortID {
+			ev := *evs[i]
+			ev.ID = ev.ID[:40]
+			evs[i] = &ev
+		}
 		return evs[i]
 	}
 	for i := range c.Events {
@@ -319,6 +327,9 @@ func genCacheEvents(t *rapid.T, c *CacheCase, nev int) {
 					break
 				}
 			}
+		}
+		if c.SelfRefs && rapid.IntRange(0, 5).Draw(t, "shortid") == 0 {
+			e.ShortID = true
 		}
 		if e.Kind == 5 && c.SelfRefs && rapid.IntRange(0, 4).Draw(t, "selfref") == 0 {
 			e.SelfRef = 1 + rapid.IntRange(0, 3).Draw(t, "selfpos")
